@@ -250,6 +250,13 @@ func handleObjectWithAssociation(metaBkt *bbolt.Bucket, diff *CountersDiff, curr
 			return fmt.Errorf("collect children: %w", err)
 		}
 		children = append(children, target)
+		// the lock of a part protects the part, the lock of a split object
+		// protects its parts: none of them is marked then
+		for _, id := range children {
+			if lockedDirectlyOrViaParent(currEpoch, metaCursor, id) {
+				return apistatus.ErrObjectLocked
+			}
+		}
 		for _, id := range children {
 			addr.SetObject(id)
 
@@ -279,6 +286,18 @@ func handleObjectWithAssociation(metaBkt *bbolt.Bucket, diff *CountersDiff, curr
 	diff.Phy++
 
 	return nil
+}
+
+// checks whether the object is locked itself or, being a part of another
+// object, through its parent.
+func lockedDirectlyOrViaParent(currEpoch uint64, metaCursor *bbolt.Cursor, id oid.ID) bool {
+	if objectLocked(currEpoch, metaCursor, id) {
+		return true
+	}
+	if par := getObjAttribute(metaCursor, id, object.FilterParentID); len(par) == oid.Size {
+		return objectLocked(currEpoch, metaCursor, oid.ID(par))
+	}
+	return false
 }
 
 func handleRegularObject(diff *CountersDiff, obj object.Object, phy bool) error {
